@@ -11,7 +11,7 @@ from ..core import Violation, derive_seed, digest
 from ..models import Layout, HOTFIX_RE, STAB_RE, DEV_RE
 from .. import e5_cascade as E
 
-STATES = ['SUCCESSFUL', 'FAILED', 'INPROGRESS', 'NOTSTARTED']
+STATES = ['SUCCESSFUL', 'FAILED', 'INPROGRESS', 'NOTSTARTED', 'STOPPED']
 KEY = 'pre-merge'
 
 
